@@ -390,6 +390,7 @@ def run(ctx, res):
     res.guard(identifier_equality, prog, res)
     from .. import runtimerules as RR_
     res.guard(RR_.rule_thread_exit, prog, res)
+    res.guard(RR_.rule_stop_armed, prog, res, "R-STATE")   # "Armed after stop or abort"
     res.guard(identifier_tracked, prog, res)
     res.require_min("R-IDENT-EQ", 4)
     shutdown_order(prog, res)
